@@ -20,6 +20,8 @@ table = [  # (property, subject substring, what failed)
  ("C08", "a delete racing with a rollover", "Delete picks its reader before taking the writer lock; after a concurrent rollover it re-inserted the closed reader of the former writer, which still behaves as head: Consume stops there, Get answers ErrInvalidOffset, newer messages unreachable (findings/C08-delete-vs-rollover-stale-head.json)"),
  ("C08", "ConsumeByKey does not step over messages", "ConsumeByKey on the head looked the key up and read the next offset as two steps: a Publish in between was stepped over without returning its messages (findings/C08-consumebykey-steps-over-publish.json)"),
  ("C08", "Delete with KeepRewriteVersion reads the writer", "data race: delete() read l.writer.messages.Version() without writerMu (KeepRewriteVersion) against the l.writer assignment of a concurrent rollover (log.go:398 vs log.go:180 at the pinned commit)"),
+ ("C19", "OpenBlocking closes the log when wrapping it fails", "OpenBlocking left the opened log (and its directory lock) behind when WrapBlocking failed, e.g. a lazy read-only open meeting a corrupt index: every later Open failed with 'already locked' (findings/C19-openblocking-lock-leak.json)"),
+ ("C19", "GC on a read-only log without segments", "read-only handle on a directory without segments: GC(0) unloaded the placeholder index and every later query failed with 'no such file or directory' (findings/C19-readonly-empty-gc.json)"),
 ]
 out = []
 for prop, sub, text in table:
